@@ -985,6 +985,10 @@ from mlmverif.selfcheck import B, OK  # noqa: E402
 
 _F = 'utils/iter_utils.py'
 VARIANTS = [
+    OK('put-through-a-local', 'utils/iter_utils.py',
+       "          self._put_nowait(value)\n", "          item = value\n          self._put_nowait(item)\n"),
+    OK('stop-link-through-a-local', 'utils/iter_utils.py',
+       "    result.stop_with(input_iterable)\n", "    upstream = input_iterable\n    result.stop_with(upstream)\n"),
     B('multiplex-queue-counts-its-producers-as-they-start', 'utils/iter_utils.py',
       "      max_enqueuer=len(input_iterators),\n", "", 'R-C05-18'),
     OK('put-waits-with-a-named-timeout', 'utils/iter_utils.py',
